@@ -180,12 +180,12 @@ def admitted(flt, key):
 def gen_filter(rng):
     so, se = rng.pick([(True, True), (True, False), (False, True), (True, True)])
     targets = []
-    if rng.chance(1, 2):
-        targets = sorted(set(rng.pick(["app", "app2", "lib", "lib/core", "web"]) for _ in range(rng.range(1, 2))))
+    if rng.chance(2, 3):
+        targets = sorted(set(rng.pick(["app", "app2", "lib", "lib/core", "web"]) for _ in range(rng.range(1, 3))))
     commands = []
     if rng.chance(1, 3):
         commands = [rng.pick(COMMANDS)]
-    if targets and rng.chance(1, 3):
+    if targets and rng.chance(1, 2):
         # a long filter: dozens of other (here: absent) targets are named too, several KB of JSON
         targets = targets + ["services/%s/%03d" % ("x" * rng.range(40, 90), i) for i in range(rng.range(40, 80))]
     return {"stdout": so, "stderr": se, "targets": targets, "commands": commands}
@@ -342,7 +342,39 @@ def c08_volume_case(seed, model, rep):
         repo.done()
 
 
-def blocks_vs_stored(repo, tail, flt, case, rep):
+def c08_repeat_case(seed, model, rep):
+    """the same command named twice in one invocation: its second execution replaces the logs of the
+    first; what is stored afterwards is exactly what the second process wrote"""
+    rng = scen.Rng(seed)
+    first = bytes(rng.below(256) for _ in range(rng.range(3000, 9000)))
+    second = ("second execution %d\n" % rng.below(1000)).encode() * rng.range(1, 3)
+    plan = {"build|app": {"by_count": [{"steps": [[0, 1, first.hex()], [0, 2, first[:2000].hex()]]},
+                                        {"steps": [[0, 1, second.hex()], [0, 2, b"e\n".hex()]]}]}}
+    repo = make_repo(plan)
+    case = {"seed": seed, "mode": "c08repeat"}
+    try:
+        repo.clear_traces()
+        rc, j, out, err = repo.mono("run", "-c", "build", "build", "-t", "app", timeout=120)
+        rep.evaluations += 1
+        rep.count("repeated_command_cases")
+        if rc != 0 or len([t for t in repo.traces() if t["command"] == "build"]) != 2:
+            rep.count("repeated_command_unexpected")
+            return
+        expect = {("stdout", "app", "build"): second, ("stderr", "app", "build"): b"e\n"}
+        for (stream, t, c), want in expect.items():
+            rc2, _, shown, err2 = repo.mono("log", "show", "--" + stream, "--targets", t, "--commands", c)
+            m = storeobs.HEADER.match(shown)
+            got = shown[m.end():] if m else shown
+            if rc2 != 0 or got != want:
+                rep.oracle_fail({"kind": "stored log differs from the bytes written", "case": case, "key": [stream, t, c],
+                                 "log_show_rc": rc2, "stderr": err2[-200:], "written_bytes": len(want), "shown_bytes": len(got)})
+                return
+        rep.nontrivial_case({"seed": seed, "mode": "repeat"})
+    finally:
+        repo.done()
+
+
+def blocks_vs_stored(repo, tail, flt, case, rep, whole_lines=False):
     """C20 judged against the stored logs themselves (whatever the run's outcome was)"""
     rc0, _, shown0, _ = repo.mono("log", "show", "--stdout", "--stderr", timeout=120)
     stored0 = storeobs.parse_log_show(shown0) if rc0 == 0 else {}
@@ -356,6 +388,14 @@ def blocks_vs_stored(repo, tail, flt, case, rep):
     per = {}
     for k, b in blocks:
         per[k] = per.get(k, b"") + b
+        if whole_lines and not b.endswith(b"\n"):
+            # every stream of this scenario is newline-terminated text: the reader hands over complete
+            # lines only, so a block (and with it the position of the next header) never falls
+            # inside a line
+            rep.oracle_fail({"kind": "listener output is not header-introduced blocks", "case": case, "key": list(k),
+                             "detail": "a block ends in the middle of a line; the next header does not start a line",
+                             "block_tail": b[-60:].decode("utf-8", "replace")})
+            return False
     rc2, _, shown, _ = repo.mono("log", "show", "--stdout", "--stderr", timeout=120)
     stored = storeobs.parse_log_show(shown) if rc2 == 0 else {}
     for k in per:
@@ -461,7 +501,7 @@ def c20_longline_case(seed, model, rep):
             tail.kill()
             rep.count("longline_case_unexpected_rc")
             return
-        if blocks_vs_stored(repo, tail, flt, case, rep):
+        if blocks_vs_stored(repo, tail, flt, case, rep, whole_lines=True):
             rep.nontrivial_case({"seed": seed, "mode": "longline"})
     finally:
         repo.done()
@@ -655,7 +695,7 @@ def main():
     scen.run_cases(lambda s: fn(s, model, rep), seeds, rep, 8)
     thorough = args["tier"] == "thorough"
     extra = []
-    special = {"c15stall": c15_stall_case, "c15restart": c15_restart_case, "c08volume": c08_volume_case, "c20cancel": c20_cancel_case, "c20stall": c20_stall_case, "c20longline": c20_longline_case}
+    special = {"c08repeat": c08_repeat_case, "c15stall": c15_stall_case, "c15restart": c15_restart_case, "c08volume": c08_volume_case, "c20cancel": c20_cancel_case, "c20stall": c20_stall_case, "c20longline": c20_longline_case}
     for c in scen.load_corpus(args["corpus"], prop):
         cc = c.get("case", c)
         if isinstance(cc, dict) and cc.get("mode") in special and "seed" in cc:
@@ -664,6 +704,7 @@ def main():
         scen.run_cases(lambda e: e[0](e[1], model, rep), extra, rep, 3)
     elif prop == "C08":
         extra += [(c08_volume_case, rng.next()) for _ in range((6 if thorough else 1) * max(1, args["budget"]))]
+        extra += [(c08_repeat_case, rng.next()) for _ in range((8 if thorough else 2) * max(1, args["budget"]))]
     elif prop == "C15":
         extra += [(c15_stall_case, rng.next()) for _ in range((4 if thorough else 1) * max(1, args["budget"]))]
         extra += [(c15_restart_case, rng.next()) for _ in range((6 if thorough else 2) * max(1, args["budget"]))]
